@@ -212,10 +212,6 @@ func (p *process) cleanup(cancel context.CancelFunc) {
 	defer p.releaseWaiters()
 	p.terminated = true
 
-	if p.context.parentCtx != nil {
-		p.context.parentCtx.children.Delete(p.pid.ID)
-	}
-
 	if p.context.children.Len() > 0 {
 		children := p.context.Children()
 		for _, pid := range children {
@@ -227,6 +223,11 @@ func (p *process) cleanup(cancel context.CancelFunc) {
 	p.context.engine.Registry.Remove(p.pid)
 	p.context.message = Stopped{}
 	applyMiddleware(p.context.receiver.Receive, p.Opts.Middleware...)(p.context)
+	// Leave the parent only now: a parent that is stopping waits for the children
+	// it still lists, and must not handle Stopped before this process has.
+	if p.context.parentCtx != nil {
+		p.context.parentCtx.children.Delete(p.pid.ID)
+	}
 
 	p.context.engine.BroadcastEvent(ActorStoppedEvent{PID: p.pid, Timestamp: time.Now()})
 }
